@@ -125,7 +125,8 @@ Definition asm_ok (tg : tags) (h : mheap) (a : addr) (v : val) : Prop :=
   match v with
   | VMapB m => masm_ok tg h a m
   | VListB l => lasm_ok tg h a l
-  | VAnyB k m l sc => masm_ok tg h a m /\ lasm_ok tg h a l /\ fref tg h sc /\ (m_w m = None \/ l_w l = None)
+  | VAnyB k m l sc => masm_ok tg h a m /\ lasm_ok tg h a l /\ fref tg h sc /\ (m_w m = None \/ l_w l = None) /\
+                      (k = AKInvalid -> m_w m = None /\ l_w l = None)
   | VChildM m _ _ => masm_ok tg h a m
   | VChildL l _ _ => lasm_ok tg h a l
   | VScalB _ w done => (if done then tg w = TFrozen else tg w = TOwned a) /\ exists sv, hget h w = Some (CPtr (VScalar sv))
@@ -339,7 +340,7 @@ Lemma asm_ok_keep : forall tg h tg' h' b v, Ext tg h tg' h' -> keeps_owned tg h 
   asm_ok tg h b v -> asm_ok tg' h' b v.
 Proof.
   intros * HE K. destruct v; cbn; try tauto; eauto using masm_ok_keep, lasm_ok_keep, fref_ext.
-  - intros (Hm & Hl & Hs & Hd). split; [|split; [|split]]; eauto using masm_ok_keep, lasm_ok_keep, fref_ext.
+  - intros (Hm & Hl & Hs & Hd & Hk). split; [|split; [|split; [|split]]]; eauto using masm_ok_keep, lasm_ok_keep, fref_ext.
   - intros [Hw [sv Hs]]. destruct done.
     + split; [apply HE; assumption|]. exists sv. eapply ext_same; eauto. discriminate.
     + destruct (K w Hw) as [Ht Hc]. rewrite Hs in Hc. auto.
